@@ -56,3 +56,9 @@
 ; syntax-tree well-formedness (assumed by the interpreter, established by the parser): child links are non-nil node pointers
 (define-fun nodeOK ((v Val)) Bool (and ((_ is VPtr) v) (> (vpref v) 0)))
 (define-fun optNode ((v Val)) Bool (or (= v VNil) (nodeOK v)))
+
+; acyclicVal(v): formatting v with fmt's %v terminates. Numbers, strings, booleans, nil and functions are leaves; for arrays and
+; objects nothing in the interpreter establishes it (a.x = a is legal), so acyclicContainer stays uninterpreted: the obligation
+; at stringify's fmt.Sprintf cannot be discharged -- known finding D-23.
+(declare-fun acyclicContainer (Val) Bool)
+(define-fun acyclicVal ((v Val)) Bool (or (not (or ((_ is VArr) v) ((_ is VObj) v))) (acyclicContainer v)))
